@@ -109,6 +109,18 @@ func (s sortedResources) Less(i, j int) bool {
 		v := s.col[i].Get(r)
 		v2 := s.col[j].Get(r)
 
+		// A nil nullable value may be returned as an untyped nil (Wrapper
+		// does); compare it as the typed nil pointer of its kind.
+		if attr, ok := s.col[i].Attrs()[r]; ok && attr.Nullable {
+			if v == nil {
+				v = GetZeroValue(attr.Type, attr.Nullable)
+			}
+
+			if v2 == nil {
+				v2 = GetZeroValue(attr.Type, attr.Nullable)
+			}
+		}
+
 		// Here we return true if v < v2.
 		// The "!= inverse" part acts as a XOR operation so that
 		// the opposite boolean is returned when inverse sorting
